@@ -17,15 +17,15 @@ import random
 from . import absn, driver, replay
 
 REQ_OK = ['req_get', 'req_head', 'req_post_cl3', 'req_post_cl0', 'req_get_b', 'req_host_only', 'req_cookies', 'req_str',
-          'req_te_ok', 'req_connect_proto']
-REQ_OUT_REPAIRABLE = ['req_messy', 'req_secure_pad']
+          'req_te_ok', 'req_connect_proto', 'req_cl_two']
+REQ_OUT_REPAIRABLE = ['req_messy', 'req_secure_pad', 'req_ws_value_nl']
 REQ_BIG = ['req_big_16379', 'req_big_16380', 'req_big_16383', 'req_big_16384', 'req_big_16385', 'req_big_32768']
 RESP_BIG = ['resp_big_16380', 'resp_big_16384', 'resp_big_16385']
 REQ_BAD = ['req_nopath', 'req_emptypath', 'req_noauth', 'req_hostmismatch', 'req_te_bad', 'req_dupmethod', 'req_latepseudo',
            'req_custompseudo', 'req_status', 'req_proto_get', 'req_late_bad', 'req_upper', 'req_ws_name', 'req_ws_value',
-           'req_conn', 'req_emptyname', 'req_nonutf8', 'req_auth_emptyhost', 'req_emptyauth_host', 'req_cookies_dup', 'empty']
-RESP_OK = ['resp200', 'resp200_cl3', 'resp200_cl0', 'resp204', 'resp404', 'resp204_cl3', 'resp304_cl3']
-RESP_OUT_REPAIRABLE = ['resp_messy']
+           'req_conn', 'req_emptyname', 'req_nonutf8', 'req_ws_value_nl', 'req_auth_emptyhost', 'req_emptyauth_host', 'req_cookies_dup', 'empty']
+RESP_OK = ['resp200', 'resp200_cl3', 'resp200_cl0', 'resp204', 'resp404', 'resp204_cl3', 'resp304_cl3', 'resp_cl_two']
+RESP_OUT_REPAIRABLE = ['resp_messy', 'resp_ws_value_nl']
 RESP_BAD = ['resp_method', 'resp_nostatus', 'resp_cl_bad', 'resp_cl_neg', 'resp_status_1xx', 'resp_status_abc',
             'resp_status_empty', 'empty']
 INFO = ['info100', 'info103', 'info100_cl3']
@@ -897,6 +897,9 @@ class G:
                 else:
                     k = 1 if r.random() < 0.8 else r.choice([2, 3])
                     fs = [self.gen_frame(x) for _ in range(k)]
+                    if r.random() < 0.15 and any(fr.get('t') == 'PING' and not fr.get('ack') for fr in fs):
+                        # the same PING twice in one input: each is answered (C26)
+                        fs = fs + [dict(next(fr for fr in fs if fr.get('t') == 'PING' and not fr.get('ack')))]
                     pf = {'headers': 0.3, 'raw': 0.15}.get(self.flavour, 0.06)
                     fs = [self.fuzz_block(x, fr) if fr.get('t') in ('HEADERS', 'PP') and fr.get('blk') == 'ok' and 'h' in fr
                           and r.random() < pf else fr for fr in fs]
